@@ -996,10 +996,13 @@ Lemma upstream_quotes_truncated :
   exists v', roundtrip upstream_params harness_prelude [("Q", v)] = Some [("Q", v')] /\ rstrip v' <> rstrip v.
 Proof. split; [vm_compute; reflexivity|]. eexists; split; [vm_compute; reflexivity | vm_compute; discriminate]. Qed.
 
-(* with the parameters of the current tree none of these is accepted any more, and the quote survives *)
+(* with the parameters of the current tree none of these is accepted any more, and the quote survives.  EXTNAME / HDUNAME are the
+   names fits_movnam_hdu compares, the primary HDU included, when the reader looks for KNOTSn / EXTENTS (finding
+   C06:aux-key:EXTNAME-shadows-KNOTSn, repaired by making them reserved — exact match, so EXTNAMES is still accepted) *)
 Lemma fixed_rejects_witnesses :
   accepts gen_params "END" "x" = false /\ accepts gen_params "HISTORY" "h" = false /\ accepts gen_params "CONTINUE" "c" = false /\
   accepts gen_params "" "b" = false /\ accepts gen_params "PCOUNT" "0" = false /\ accepts gen_params "GCOUNT" "1" = false /\
+  accepts gen_params "EXTNAME" "KNOTS0" = false /\ accepts gen_params "HDUNAME" "EXTENTS" = false /\ accepts gen_params "EXTNAMES" "KNOTS0" = true /\
   accepts gen_params (repeat_char "K"%char 68) "1.5" = false /\ accepts gen_params (repeat_char "K"%char 67) "" = false /\
   accepts gen_params "HIERARCH ABC DEF" "v" = false /\ accepts gen_params " LEADING SPACE" "w" = false /\
   accepts gen_params "Q" (repeat_char quote 40) = false /\
